@@ -82,7 +82,7 @@ type shape struct {
 	body  map[[2]int][]op   // what the decoder of type t does on object e
 	fails map[[2]int]bool   // decoder returns an error
 	nilv  map[[2]int]bool   // decoder returns a nil interface value
-	sink  bool              // the documented DecodeExclusive restriction holds
+	sink  bool              // the exclusive-dependency relation of the decoders is well-founded (no_deadlock_ranked applies): a deadlock is a failure
 	rd    *pdf.Reader
 	refs  []pdf.Reference // refs[i] = reference of object i (1-based)
 	spec  string
